@@ -918,3 +918,16 @@ func DeadBlocks(fn *ssa.Function) map[*ssa.BasicBlock]bool {
 
 // FieldOfAddr is the exported form of fieldOfAddr.
 func FieldOfAddr(v ssa.Value) *types.Var { return fieldOfAddr(v) }
+
+// FactsImply reports whether some branch fact dominating in implies a.
+func FactsImply(in ssa.Instruction, a Atom) bool { return holds(FactsAtInstr(in), a, false) }
+
+// Entry selects the first instruction of the function (the start of every path).
+func Entry() Sel {
+	return Sel{"function entry", func(p *Prog, fn *ssa.Function) []ssa.Instruction {
+		if len(fn.Blocks) == 0 || len(fn.Blocks[0].Instrs) == 0 {
+			return nil
+		}
+		return []ssa.Instruction{fn.Blocks[0].Instrs[0]}
+	}}
+}
